@@ -72,6 +72,9 @@ fn bad_attr<T>(op: CompareOp, bad: (String, Span), good: &[&str]) -> Result<T> {
 #[verus_verify]
 #[verifier::external_body]
 fn build_eq_checker(this: TokenStream) -> TokenStream { unimplemented!() }
+#[verus_verify]
+#[verifier::external_body]
+fn build_eq_assertion(cmp: &HelperAttributesForCompareOp, this: TokenStream) -> TokenStream { unimplemented!() }     // under contract in unit cmp_select
 
 // the five per-field selectors, this time with their effect on the where-clause builder
 //@ fn item_type/compare_op.rs build_partial_eq_expr
